@@ -190,6 +190,14 @@ _fuzz_gen = gen('quick')
 fuzz_case = fuzz.structured_target(_fuzz_gen, check_case)
 
 
+def gen_opts_opseq(tier):
+    o = gmsg.GenOpts(tier)
+    o.compressed = False
+    o.min_subsets, o.max_subsets = 2, 3
+    o.max_fields = 600
+    return o
+
+
 def run(tier, seed):
     rep = Report(PID, tier, seed, 'exploration')
     rep.rule = ('uncompressed messages with 2..n subsets from the C01 generator (replication and bitmap constructs weighted up, '
@@ -203,6 +211,11 @@ def run(tier, seed):
     n = 3000 if tier == 'quick' else 80000
     runner.run_generated(rep, gen(tier), check_case, n, runner.tier_workers(tier),
                          shrink_s=20 if tier == 'quick' else 120)
+    # templates whose section 3 lists no operator at all: the operators sit inside Table D sequences
+    so = gen_opts_opseq(tier)
+    runner.run_generated(rep, lambda ch: gmsg.gen_opseq_case(ch, so), check_case, 500 if tier == 'quick' else 20000,
+                         runner.tier_workers(tier), stage='operators inside sequences')
+    rep.required_classes.append('operators_only_inside_table_d_sequences')
     fuzz.run_structured(rep, 'checks.c06', _fuzz_gen, tier)
     return rep.finish()
 
